@@ -389,6 +389,11 @@ def jobs_c20(prop, tier, seed):
                  150 if tier == "quick" else 400)
 
 
+def jobs_c03(prop, tier, seed):
+    """joint memory as a fixed source that runs out (C03)"""
+    return _jobs(prop, tier, seed, ["base", "dbg"], [sc_fit, sc_raw], 150 if tier == "quick" else 400)
+
+
 def jobs_c11(prop, tier, seed):
     J = _jobs(prop, tier, seed, ["rel", "base", "dbg"], [sc_fit, sc_raw, sc_orders, sc_joint_create],
               150 if tier == "quick" else 400)
